@@ -103,6 +103,12 @@ func Await(kind string, pred func() bool) {
 		return
 	}
 	if x.aborted {
+		// unwinding: deferred calls run with scheduling points switched off; an operation that could not proceed now
+		// (a deferred send on a full lock channel, a lock that is held) would block for real, so the thread ends here
+		// instead (its remaining deferred calls still run)
+		if pred != nil && !pred() {
+			runtime.Goexit()
+		}
 		return
 	}
 	t.pred, t.kind = pred, kind
